@@ -296,9 +296,6 @@ pub fn checked_gamma_lr(a: f64, x: f64) -> Result<f64, GammaFuncError> {
     if prec::almost_eq(a, 0.0, prec::DEFAULT_F64_ACC) {
         return Ok(1.0);
     }
-    if prec::almost_eq(x, 0.0, prec::DEFAULT_F64_ACC) {
-        return Ok(0.0);
-    }
 
     let ax = a * x.ln() - x - ln_gamma(a);
     if ax < -709.78271289338399 {
